@@ -9,8 +9,14 @@ transl: translate/cxx2lean.py spec im_matrix -> Generated/IMMatrix.lean -> Props
         stream im-algebra runs the compiled class on random matrices / operation sequences / patterns against the same model.
 tie   : stream relate-dbl — generated valid pairs under arbitrary-double similarity maps (rotation, scale
         1e-3..1e9, offsets), axis-parallel rectangles (fast paths) with a redundant-vertex twin, XY point forms,
-        prepared on either side, a reused prepared geometry asked in random order.  A failed `consistent`
-        IS a failing input for the property: two paths disagree."""
+        prepared on either side, a reused prepared geometry asked in random order, polygons whose holes decide (partner vertices all
+        inside holes), walks of XY queries on one prepared geometry (row / column scans).  A failed `consistent` IS a failing input
+        for the property: two paths disagree.
+        stream rect-fast — RectangleIntersects::intersects and its three callers on exact lattice input against Model/Relate/RectFast.lean
+        (theorems rectIntersects_of_crossing / _of_corner: no witnessed intersection is overlooked, holes included) and, on valid input,
+        against the witness reference refIntersects.
+        stream point-setxy — one geom::Point overwritten by setXY against Model/Relate/ScratchPoint.lean (theorem run_last: the scratch
+        point of the XY forms always equals a fresh point)."""
 import os, sys, json, glob
 import verif, gtok
 
@@ -26,7 +32,7 @@ def split_case(case):
 
 def evaluate(exe, a, b, obs=""):
     p = os.path.join(verif.BUILD, "work", "c02-replay-%d.txt" % os.getpid())
-    keep = " ".join(t for t in obs.split() if t.startswith("pat=") or t.startswith("ord="))
+    keep = " ".join(t for t in obs.split() if t.startswith("pat=") or t.startswith("ord=") or t.startswith("xyq="))
     with open(p, "w") as f:
         f.write("D | %s | %s | %s\n" % (a, b, keep))
     rc, out = verif.sh([exe, "replay", p], timeout=120)
@@ -39,6 +45,61 @@ def evaluate(exe, a, b, obs=""):
     return (lines[0] if lines else "driver-error"), line
 
 
+def rect_fast_wkt(case):
+    """WKT of a rect-fast case line (lattice integers)"""
+    try:
+        parts = case.split(" | ")
+        t = parts[0].split()[1:]
+        n = int(t[0]); rect = "POLYGON ((%s))" % ", ".join("%s %s" % (t[1 + 2 * i], t[2 + 2 * i]) for i in range(n))
+        out = []
+        for el in parts[1].split(" ; "):
+            t = el.split()
+            if not t or t[0] == "-":
+                continue
+            def seq(k):
+                m = int(t[k]); return ", ".join("%s %s" % (t[k + 1 + 2 * i], t[k + 2 + 2 * i]) for i in range(m)), k + 1 + 2 * m
+            if t[0] == "P":
+                out.append("POINT EMPTY" if t[1] == "0" else "POINT (%s)" % seq(1)[0])
+            elif t[0] == "L":
+                out.append("LINESTRING EMPTY" if t[1] == "0" else "LINESTRING (%s)" % seq(1)[0])
+            else:
+                nr, k, rings = int(t[1]), 2, []
+                for _ in range(nr):
+                    sq, k = seq(k); rings.append("(%s)" % sq)
+                out.append("POLYGON (%s)" % ", ".join(rings) if rings else "POLYGON EMPTY")
+        return rect, (out[0] if len(out) == 1 else "GEOMETRYCOLLECTION (%s)" % ", ".join(out))
+    except Exception:
+        return "?", "?"
+
+
+def line_ends_only_on_collection_points(x, y):
+    """Exact structural feature of one recorded RelateNG defect (TopologyComputer::addLineEndOnGeometry, target dimension P: no inference):
+    y is a collection with isolated POINT elements next to elements of higher dimension, x has line elements and EVERY line element of x
+    (open or closed: RelateNG::computeLineEnds visits the first vertex of a closed line too) has its first and last vertex exactly on point
+    elements of y (so no line end of x falls into y's exterior and nothing records Interior(x) / Exterior(y))."""
+    try:
+        gx, gy = gtok.parse(x)[1], gtok.parse(y)[1]
+    except Exception:
+        return False
+    def leaves(e, out):
+        if e[0] in gtok.COLL:
+            for k in e[1]: leaves(k, out)
+        else:
+            out.append(e)
+        return out
+    def key(p):
+        return tuple(gtok._dec(h) + 0.0 for h in p[:2])
+    if gy[0] not in gtok.COLL:
+        return False
+    ly = leaves(gy, [])
+    ypts = {key(e[1][1][0]) for e in ly if e[0] == "P" and e[1][1]}
+    higher = any((e[0] in ("L", "R") and len(e[1][1]) >= 2) or (e[0] == "Y" and e[1] and e[1][0][1]) for e in ly)
+    if not ypts or not higher:
+        return False
+    lines = [e[1][1] for e in leaves(gx, []) if e[0] in ("L", "R") and len(e[1][1]) >= 2]
+    return bool(lines) and all(key(l[0]) in ypts and key(l[-1]) in ypts for l in lines)
+
+
 def signature(a, b, verdict):
     """conjunct: which agreement fails; gc: a GeometryCollection is involved; nearIncidence (gc false): beyond shared
     vertices, a vertex lies within rounding distance of a segment of the other geometry WITHOUT being exactly on it, or two
@@ -47,9 +108,10 @@ def signature(a, b, verdict):
     coveredBy of A with itself and its clone) nearIncidence is evaluated inside A."""
     t = verdict.split()
     conj = t[1] if len(t) > 1 else "?"
-    nov = "?"
+    nov, snov = "?", "?"
     for x in t:
         if x.startswith("nov="): nov = x[4:]
+        if x.startswith("snov="): snov = x[5:]
     fa, fb = gtok.features(a), gtok.features(b)
     gc = fa["gc"] or fb["gc"]
     # the first failing conjunct depends on evaluation order; group the matrix-level and the predicate-level ones
@@ -57,7 +119,7 @@ def signature(a, b, verdict):
              "named-vs-matrix": "predicate-vs-matrix", "named-vs-matrix-swapped": "predicate-vs-matrix",
              "prepared-vs-matrix": "predicate-vs-matrix", "prepared-vs-matrix-swapped": "predicate-vs-matrix",
              "pattern": "predicate-vs-matrix", "prepared-order-dependent": "prepared-order",
-             "rectangle-variant": "rectangle", "xy-forms": "xy", "self-relations": "self",
+             "rectangle-variant": "rectangle", "xy-forms": "xy", "xy-sequence": "xy", "self-relations": "self",
              "equals-both-empty": "equals-both-empty"}.get(conj, conj)
     mixed = False
     if gc and not (gtok.gc_self_interaction(a) or gtok.gc_self_interaction(b)):
@@ -68,6 +130,8 @@ def signature(a, b, verdict):
     sig = {"conjunct": group, "gc": gc}
     if mixed:
         sig["mixedDimCollection"] = True
+        if group in ("relate-paths", "predicate-vs-matrix") and (line_ends_only_on_collection_points(a, b) or line_ends_only_on_collection_points(b, a)):
+            sig["lineEndsOnlyOnCollectionPoints"] = True
     if gc:
         pass
     elif group == "self":
@@ -79,6 +143,11 @@ def signature(a, b, verdict):
             # every degenerate contact of the pair is EXACT (determinant 0): rounding cannot be blamed
             sig["exactIncidence"] = True
             sig["collinearOverlap"] = (nov == "xo")
+        if nov in ("0", "x") and snov == "1" and group in ("relate-paths", "predicate-vs-matrix"):
+            # no inexact contact BETWEEN the geometries, but one INSIDE a geometry: a vertex of it within rounding distance of another of its
+            # own segments without being exactly on it (e.g. the tip of a spike folded back onto its own line after an inexact map)
+            sig["selfNearIncidence"] = True
+            sig.pop("exactIncidence", None); sig.pop("collinearOverlap", None)      # rounding inside one geometry is involved after all
     return sig
 
 
@@ -107,6 +176,9 @@ def run(ctx):
         "no exact oracle is claimed for arbitrary doubles: the check decides agreement between paths, not which path is right",
         "validity of generated inputs is filtered with GEOSisValid after the (inexact) similarity map",
         "dimension 'real' of each input (used by the dimension-dependent named predicates) is recomputed by the driver from the geometry structure",
+        "stream rect-fast: the model is evaluated on the lattice integers, the implementation on the same integers times a power of two (exact in binary64; "
+        "the orientation / envelope tests involved are invariant under that scaling)",
+        "Model/Relate/RectFast.lean and Model/Relate/ScratchPoint.lean are hand-ported from RectangleIntersects.cpp / Point.h (not regenerated by the translator)",
     ])
     # ---- translator: geom::IntersectionMatrix (the C++ the algebra of Props/C02 is about) is regenerated from the current source;
     # Props/C02Gen (matrix operations) and Props/C01Gen (matches(int, char), named predicates) prove it equal to Base/IM for all arguments
@@ -151,8 +223,42 @@ def run(ctx):
                        "fields": "A <matrix> <pattern> <cell> <ops: sABd set, lABd setAtLeast, t transpose> -> final matrix, get(cell), matches(pattern) "
                                  "and matches(transposed pattern) of the transposed matrix (X = throws)"},
                       signature={"conjunct": "im-algebra"})
+    corr_extra = {}
+    # ---- the rectangle fast path on exact lattice input vs Model/Relate/RectFast (and the witness reference on valid input)
+    rf = verif.run_stream(exe, "rect-fast", ctx.seed, 60000 if quick else 3000000, ctx.work, shards=8, driver_exe=DRV, timeout=3000)
+    corr_extra["rect-fast"] = {"cases": rf["cases"], "disagreements": len(rf["disagreements"]) + rf.get("more_disagreements", 0), "distribution": rf["stats"]}
+    ctx.cov["samples"] += rf.get("samples", [])[:1]
+    if rf["error"]:
+        ctx.violation("stream rect-fast could not run: " + rf["error"], {"kind": "tie-broken", "correspondence": "rect-fast", "detail": rf["error"]}, nofail=True)
+    elif rf["disagreements"]:
+        idx, case, exp, got = min(rf["disagreements"], key=lambda d: len(d[1]))
+        found_input = True
+        refdiff = "reference-differs" in got and got.split()[0] == exp
+        rect, geom = rect_fast_wkt(case)
+        what = ("the rectangle fast path (RectangleIntersects::intersects, as the model of it) answers %s but the witnessed-intersection reference says otherwise (%s): "
+                "intersects(rectangle, g) cannot equal the pattern match of relate" % (exp, got)) if refdiff else \
+               ("RectangleIntersects::intersects / Geometry::intersects (rectangle first, rectangle second) / prepared rectangle answer %s, the model of the fast path "
+                "(three visitors over every ring) answers %s: on this exact lattice input an intersection witnessed by a hole or shell segment or a corner is "
+                "decided differently, so intersects disagrees with relate / disjoint / the redundant-vertex twin" % (exp, got))
+        ctx.violation(what, {"kind": "failing-input", "stream": "rect-fast", "case": case, "impl": exp, "model": got, "rectangle_wkt": rect, "geometry_wkt": geom,
+                             "fields": "F <rectangle ring> | <elements: P point, L line, Y polygon rings> | v=valid swap=test geometry is itself a rectangle; answers: "
+                                       "RectangleIntersects::intersects, rect.intersects(g), g.intersects(rect), prepared(rect).intersects(g)"},
+                      signature={"conjunct": "rect-fast-reference" if refdiff else "rect-fast"})
+    # ---- geom::Point::setXY (the scratch point of the XY forms): coordinate and cached envelope after every call
+    rp = verif.run_stream(exe, "point-setxy", ctx.seed, 20000 if quick else 1000000, ctx.work, shards=8, driver_exe=DRV)
+    corr_extra["point-setxy"] = {"cases": rp["cases"], "disagreements": len(rp["disagreements"]) + rp.get("more_disagreements", 0), "distribution": rp["stats"]}
+    if rp["error"]:
+        ctx.violation("stream point-setxy could not run: " + rp["error"], {"kind": "tie-broken", "correspondence": "point-setxy", "detail": rp["error"]}, nofail=True)
+    elif rp["disagreements"]:
+        idx, case, exp, got = min(rp["disagreements"], key=lambda d: len(d[1]))
+        found_input = True
+        ctx.violation("geom::Point after a sequence of setXY calls is not the fresh point at the last position (coordinate or cached envelope differ): the XY predicate "
+                      "forms, which overwrite one scratch Point per context, then answer differently from the POINT forms.  impl %s, model %s" % (exp, got),
+                      {"kind": "failing-input", "stream": "point-setxy", "case": case, "impl": exp, "model": got,
+                       "fields": "S <start: E empty | x:y> <setXY calls x:y ...> -> after each call P:x:y:minx:maxx:miny:maxy (doubles as hex bits)"},
+                      signature={"conjunct": "point-setxy"})
     r = verif.run_stream(exe, "relate-dbl", ctx.seed, n, ctx.work, shards=8, driver_exe=DRV, timeout=6000)
-    corr = {"im-algebra": corr_alg, "relate-dbl": {"cases": r["cases"], "disagreements": len(r["disagreements"]) + r.get("more_disagreements", 0),
+    corr = {"im-algebra": corr_alg, **corr_extra, "relate-dbl": {"cases": r["cases"], "disagreements": len(r["disagreements"]) + r.get("more_disagreements", 0),
                            "distribution": {k: v for k, v in r["stats"].items() if not k.startswith("matrix_")},
                            "distinct_matrices": sum(1 for k in r["stats"] if k.startswith("matrix_"))}}
     ctx.cov["samples"] += r.get("samples", [])[:2]
